@@ -157,14 +157,18 @@ Variable fb : op -> lit F -> lit F -> option (lit F).   (* fold_bin or fold_bin_
 
 (* ast.Walk with the optimiser: children first, then VisitAfter.  The result
    is the rewritten tree and the number of errors added (Optimise fails iff it
-   is non-zero; a node whose fold failed stays a BinaryExpr). *)
-Fixpoint fold_tree (t : tree F) : tree F * N :=
+   is non-zero; a node whose fold failed stays a BinaryExpr).
+   [keep] = this node is the condition of a CondStmt (optimiser.conds): its
+   operands are folded, the node itself stays a BinaryExpr and reports no
+   error (the checker then sees the division by a literal zero). *)
+Fixpoint fold_tree (keep : bool) (t : tree F) : tree F * N :=
   match t with
   | TLit l => (TLit l, 0%N)
   | TLeaf i => (TLeaf i, 0%N)
   | TBin o l r =>
-      let (l', el) := fold_tree l in
-      let (r', er) := fold_tree r in
+      let (l', el) := fold_tree false l in
+      let (r', er) := fold_tree false r in
+      if keep then (TBin o l' r', (el + er)%N) else
       match l', r' with
       | TLit a, TLit b =>
           match fb o a b with
@@ -173,21 +177,52 @@ Fixpoint fold_tree (t : tree F) : tree F * N :=
           end
       | _, _ => (TBin o l' r', (el + er)%N)
       end
-  | TNode tag cs => let (cs', e) := fold_trees cs in (TNode tag cs', e)
+  | TNode tag cs => let (cs', e) := fold_trees (N.eqb tag cond_tag) cs in (TNode tag cs', e)
   | TNoWalk tag t => (TNoWalk tag t, 0%N)
   end
-with fold_trees (ts : trees F) : trees F * N :=
+with fold_trees (keep_first : bool) (ts : trees F) : trees F * N :=
   match ts with
   | TNil => (TNil, 0%N)
   | TCons t r =>
-      let (t', e1) := fold_tree t in
-      let (r', e2) := fold_trees r in
+      let (t', e1) := fold_tree keep_first t in
+      let (r', e2) := fold_trees false r in
       (TCons t' r', (e1 + e2)%N)
   end.
 
 (* opt.Optimise: the tree, or failure *)
 Definition fold_prog (t : tree F) : option (tree F) :=
-  let (t', e) := fold_tree t in if (e =? 0)%N then Some t' else None.
+  let (t', e) := fold_tree false t in if (e =? 0)%N then Some t' else None.
+
+(* before the repair: a condition was folded like any other node *)
+Fixpoint fold_tree_old (t : tree F) : tree F * N :=
+  match t with
+  | TLit l => (TLit l, 0%N)
+  | TLeaf i => (TLeaf i, 0%N)
+  | TBin o l r =>
+      let (l', el) := fold_tree_old l in
+      let (r', er) := fold_tree_old r in
+      match l', r' with
+      | TLit a, TLit b =>
+          match fb o a b with
+          | Some v => (TLit v, (el + er)%N)
+          | None => (TBin o l' r', (el + er + 1)%N)
+          end
+      | _, _ => (TBin o l' r', (el + er)%N)
+      end
+  | TNode tag cs => let (cs', e) := fold_trees_old cs in (TNode tag cs', e)
+  | TNoWalk tag t => (TNoWalk tag t, 0%N)
+  end
+with fold_trees_old (ts : trees F) : trees F * N :=
+  match ts with
+  | TNil => (TNil, 0%N)
+  | TCons t r =>
+      let (t', e1) := fold_tree_old t in
+      let (r', e2) := fold_trees_old r in
+      (TCons t' r', (e1 + e2)%N)
+  end.
+
+Definition fold_prog_old (t : tree F) : option (tree F) :=
+  let (t', e) := fold_tree_old t in if (e =? 0)%N then Some t' else None.
 
 End FoldTree.
 
